@@ -557,6 +557,26 @@ func raceRun(body []byte) *core.Verdict {
 			}
 		}
 	}
+	// a submodule that no module includes is converted by Process all the same, but nothing links its imports: the
+	// first lookups under its import prefix, from its own tree, are made by several readers at once
+	var strayRoot, strayWant *yang.Entry
+	strayPath := ""
+	stray := yang.NewModules()
+	stray.Parse(session.Texts["i1"], "i1.yang")
+	stray.Parse(`module sm { namespace "urn:sm"; prefix sm; container top { leaf a { type string; } } }`, "sm.yang")
+	stray.Parse(`submodule stray { belongs-to sm { prefix sm; } import i1 { prefix far; }
+  container sc { leaf ref { type leafref { path "/far:elsewhere"; } } } }`, "stray.yang")
+	if errs := stray.Process(); len(errs) == 0 && stray.SubModules["stray"] != nil && stray.Modules["i1"] != nil {
+		i1e := yang.ToEntry(stray.Modules["i1"])
+		var ks []string
+		for k := range i1e.Dir {
+			ks = append(ks, k)
+		}
+		sort.Strings(ks)
+		if len(ks) > 0 {
+			strayRoot, strayWant, strayPath = yang.ToEntry(stray.SubModules["stray"]), i1e.Dir[ks[0]], "/far:"+ks[0]
+		}
+	}
 	start := make(chan struct{})
 	for g := 0; g < n; g++ {
 		wg.Add(1)
@@ -572,6 +592,11 @@ func raceRun(body []byte) *core.Verdict {
 				switch mode {
 				case 0: // reader: every read-only query of the statement
 					if i == 0 {
+						if strayRoot != nil {
+							if got := strayRoot.Find(strayPath); got != strayWant {
+								report("Find(" + strayPath + ") from the tree of a submodule nobody includes returned another node under concurrency")
+							}
+						}
 						subTrees()
 					}
 					if i < 3 {
